@@ -101,6 +101,40 @@ func loadProgram(repo string, cfg Config) (*Program, error) {
 		p.SSAPkg[sp.Pkg.Path()] = sp
 	}
 	p.AllFuncs = ssautil.AllFunctions(prog)
+	// ssautil.AllFunctions leaves out the bodies of generic functions and of the methods of generic types
+	// that the library itself never instantiates (sign/bls is instantiated by its users only): add the
+	// generic bodies, so that the rules that walk all functions see that code too
+	var addFn func(f *ssa.Function)
+	addFn = func(f *ssa.Function) {
+		if f == nil || p.AllFuncs[f] {
+			return
+		}
+		p.AllFuncs[f] = true
+		for _, a := range f.AnonFuncs {
+			addFn(a)
+		}
+	}
+	for _, sp := range prog.AllPackages() {
+		if !isCirclPath(sp.Pkg.Path()) {
+			continue
+		}
+		for _, m := range sp.Members {
+			switch x := m.(type) {
+			case *ssa.Function:
+				if x.TypeParams().Len() > 0 {
+					addFn(x)
+				}
+			case *ssa.Type:
+				nt, ok := x.Type().(*types.Named)
+				if !ok || nt.TypeParams().Len() == 0 {
+					continue
+				}
+				for i := 0; i < nt.NumMethods(); i++ {
+					addFn(prog.FuncValue(nt.Method(i)))
+				}
+			}
+		}
+	}
 	for f := range p.AllFuncs {
 		if f.Blocks != nil && f.Pkg != nil && isCirclPath(f.Pkg.Pkg.Path()) {
 			p.NFuncs++
